@@ -90,6 +90,39 @@ func propC03(o *propOpts) *propResult {
 			each(string(b))
 		}
 	})
+	// the structured inputs of the parser-level predicates (probes, reference grammar G, grafts, single-token edits, keyword
+	// substitutions, soups), each through the entry point it was generated for and through ParseStatements
+	checkEntry := func(e *entry, s string) {
+		r := safeParse(e, s)
+		d := ""
+		switch {
+		case r.hung:
+			d = fmt.Sprintf("did not return within %v", callTimeout)
+		case r.panicked != nil:
+			d = fmt.Sprintf("panicked: %v", r.panicked)
+		case r.err != nil:
+			if me, ok := r.err.(memefish.MultiError); !ok {
+				d = fmt.Sprintf("error is %T, not MultiError", r.err)
+			} else if len(me) == 0 {
+				d = "empty MultiError"
+			}
+		}
+		if d == "" && !e.list && (len(r.nodes) != 1 || isNilNode(r.nodes[0])) {
+			d = "single-node entry point returned a nil node"
+		}
+		res.eval(e.name+"|"+s, r.err != nil, func() any { return s })
+		if d != "" {
+			res.fail("input:"+hx(s), s, e.name, d)
+		}
+	}
+	stmts := entryByName("ParseStatements")
+	parserInputs(o, func(e *entry, s string, origin string) {
+		checkEntry(e, s)
+		if e.name != "ParseExpr" && e.name != "ParseType" && e != stmts {
+			checkEntry(stmts, s)
+		}
+		res.count(origin)
+	})
 	r := &rng{s: o.seed}
 	nrand, nmut := 3000, 6000
 	if o.tier == "thorough" {
